@@ -146,6 +146,41 @@ async def e2e(loop, cases):
         await w.declare_all_queues()
         kw = dict(case["job"])
         j = Job("act", queue=case["queue"], args=case["args"], _connection=conn, **kw)
+        if case.get("concurrent"):
+            # the worker is already listening when the job is enqueued, and the args bucket takes its time (or fails): the consumer
+            # receives what the producer enqueued -- all of it, or (if enqueue() failed) nothing at all
+            ab = conn.args_bucket_broker
+            orig_store = ab.store_bucket
+
+            async def slow_store(*a, **k):
+                await asyncio.sleep(0.05)
+                if case["concurrent"] == "store_fails":
+                    raise ConnectionError("args bucket unavailable (injected)")
+                return await orig_store(*a, **k)
+            slow_store._repid_signal_emitter = getattr(orig_store, "_repid_signal_emitter", None)
+            ab.store_bucket = slow_store
+            wt = asyncio.ensure_future(w.run())
+            await asyncio.sleep(0.01)
+            failed = False
+            try:
+                await j.enqueue()
+            except ConnectionError:
+                failed = True
+            if failed:
+                await asyncio.sleep(1.0)
+                leftover = sum(q.simple.qsize() + len(q.processing) + len(q.dead) + sum(len(v) for v in q.delayed.values()) for q in broker.queues.values())
+                wt.cancel()
+                try:
+                    await wt
+                except BaseException:  # noqa: BLE001
+                    pass
+                expect = json.loads(json.dumps(case["args"], default=str))
+                ok = "kwargs" not in got and leftover == 0
+                out.append({"same": ok, "got": expect if ok else {"executed": got.get("kwargs"), "messages_left": leftover}, "carried": expect, "key": []})
+            else:
+                await asyncio.wait_for(wt, 30)
+                out.append({"same": True, "got": got.get("kwargs"), "carried": got.get("kwargs"), "key": []})
+            continue
         key, payload, params = await j.enqueue()
         c = broker.get_consumer(case["queue"], ["act"])
         await c.start()
@@ -217,6 +252,10 @@ def run(tier: str, seed: int, replay=None) -> int:
         if not bucket:
             job["args_id"] = None        # an explicit args id is a reference into the args bucket broker
         ecases.append({"args": args, "bucket": bucket, "queue": rng.choice(["default", "q-1", "_q"]), "job": job})
+    for n in range({"quick": 12, "thorough": 100}[tier]):
+        args = {f"a{j}": rand_json(rng) for j in range(rng.randint(1, 3))}
+        ecases.append({"args": args, "bucket": True, "queue": "default", "concurrent": "store_fails" if n % 3 == 2 else "slow",
+                       "job": {"retries": 0, "args_id": rng.choice([None, f"args{n}"])}})
     outs = vloop.run(e2e, ecases)
     nbad = 0
     for c, o in zip(ecases, outs):
